@@ -67,6 +67,7 @@ package server
 
 //@ func GRPCmTLSUnaryServerInterceptor$1(ctx context.Context, req interface{}, info *grpc.UnaryServerInfo, handler grpc.UnaryHandler) (interface{}, error)
 //@   serves C13
+//@   selfensures mtlsUnary(self) == (allowUnauthenticatedReads ? 1 : 2)
 //@   requires info != nil && handler != nil && ctx != nil
 //@   modifies certN, certChecked
 //@   call handler#0 asserts[C13] health: info.FullMethod == "/grpc.health.v1.Health/Check"
@@ -75,6 +76,7 @@ package server
 
 //@ func GRPCmTLSStreamServerInterceptor$1(srv interface{}, ss grpc.ServerStream, info *grpc.StreamServerInfo, handler grpc.StreamHandler) error
 //@   serves C13
+//@   selfensures mtlsStream(self) == (allowUnauthenticatedReads ? 1 : 2)
 //@   requires info != nil && handler != nil && ss != nil
 //@   modifies certN, certChecked
 //@   call handler#0 asserts[C13] readonly: allowUnauthenticatedReads && has(readOnlyMethods, info.FullMethod)
@@ -107,3 +109,13 @@ package server
 //@   requires serverrequest: r != nil && r.URL != nil
 //@   noframe
 //@   call ServeHTTP#* asserts[C13] authenticated: certN == old(certN) + 1 && certChecked
+
+// mtlsUnary(f) / mtlsStream(f): 0 = f is not an mTLS interceptor, 1 = built with unauthenticated
+// reads allowed, 2 = built without (uninterpreted; stated where the function literals are evaluated).
+//@ func GRPCmTLSUnaryServerInterceptor(allowUnauthenticatedReads bool) grpc.UnaryServerInterceptor
+//@   inline
+//@ func GRPCmTLSStreamServerInterceptor(allowUnauthenticatedReads bool) grpc.StreamServerInterceptor
+//@   inline
+//@ func NewGrpcBasicAuth(secrets auth.SecretProvider, allowUnauthenticatedReadOnly bool) *GrpcBasicAuth
+//@   serves C13
+//@   ensures[C13] asconfigured: result != nil && !old(allocated(result)) && result.secrets == secrets && result.allowUnauthenticatedReadOnly == allowUnauthenticatedReadOnly
